@@ -873,6 +873,11 @@ func (g *G) hostile(t Ty, d int) *sx.N {
 	switch g.R.Intn(12) {
 	case 0:
 		g.feat("hostile:unbound")
+		if g.R.Chance(1, 3) {
+			// qualified: the package exists, the name is not bound in it
+			g.feat("hostile:unbound-qualified")
+			return sx.Y(fmt.Sprintf("%s:unbound-%d", fw.Pick(g.R, []string{"lisp", "user"}), g.R.Intn(5)))
+		}
 		return sx.Y(fmt.Sprintf("unbound-%d", g.R.Intn(5)))
 	case 1:
 		g.feat("hostile:arity-builtin")
